@@ -1,24 +1,21 @@
-import MiniconfVerif.Model.Codec
+import MiniconfVerif.Lemmas.PcRT
+import MiniconfVerif.Lemmas.WalkFrame
 
 /-! # C05 — leaf values survive get/set through JSON and postcard unchanged
-(first instalment: integer / bool / option / unit round trips of the JSON model by
-`decide`-free structural proofs are in progress; floats are opaque in the model) -/
+
+Model: `Model/Codec.lean` — the two wire formats as the helpers see them (serde-json-core /
+postcard on the leaf value universe `Ty`), and `Tree.walk` with an abstract (de)serializer
+`Io`.  Proved: the JSON and postcard decoders invert the encoders on every value of the modelled
+input class (all integer widths incl. extremes, bool, unit, `Option`, arrays, nested structs,
+string-tagged enums; for JSON also strings without characters that need an escape), consuming
+exactly the encoded text; writing back what a read returned is the identity on the tree; a read
+after a write returns the written value.  Not theorems: floats (opaque in the model), postcard
+strings (UTF-8 transcoding), JSON escapes. -/
 namespace MiniconfVerif.C05
 open MiniconfVerif MiniconfVerif.Codec
 
 /-- zig-zag coding (postcard signed integers) is a bijection -/
-theorem unzigzag_zigzag (v : Int) : unzigzag (zigzag v) = v := by
-  unfold zigzag unzigzag
-  split
-  · next h =>
-    have : (2 * v.toNat) % 2 = 0 := by omega
-    simp only [this, if_true]
-    omega
-  · next h =>
-    have h1 : (2 * (-v).toNat - 1) % 2 = 1 := by omega
-    simp only [h1]
-    simp only [show ¬ ((1 : Nat) = 0) from by decide, if_false]
-    omega
+theorem unzigzag_zigzag (v : Int) : unzigzag (zigzag v) = v := unzigzag_zigzag' v
 
 /-- the JSON text of `true`/`false`/`null` decodes to the value and consumes exactly the text -/
 theorem bool_roundtrip (b : Bool) (rest : List Char) :
@@ -28,9 +25,60 @@ theorem bool_roundtrip (b : Bool) (rest : List Char) :
 theorem unit_roundtrip (rest : List Char) : jsonDec .unit ("null".toList ++ rest) = some (.unit, rest) := by
   simp [jsonDec, skipWs, isWs, stripLit, List.isPrefixOf]
 
-/-! ## documented examples as checks of the model (tests, not theorems) -/
+/-- **JSON round trip**: for every type and value of the modelled class, decoding the canonical
+text (followed by any continuation that does not start with a digit) returns the value and
+exactly the continuation. -/
+theorem json_roundtrip (t : Ty) (v : Val) (txt rest : List Char) (hf : fits t v = true) (he : jsonEnc t v = some txt)
+    (hr : NoDigit rest) : jsonDec t (txt ++ rest) = some (v, rest) :=
+  (json_rt v t txt rest hf he hr).1
+
+/-- hence `json::set_by_key` on the text `get_by_key` produced stores the same value, finalizes
+cleanly (nothing left over) and reports exactly the number of bytes of the text -/
+theorem json_set_of_get (t : Ty) (v : Val) (txt : List Char) (hf : fits t v = true) (he : jsonEnc t v = some txt) :
+    jsonSetLeaf t txt = some (v, true, PathIter.byteLen txt) := by
+  have := (json_rt v t txt [] hf he (by intro c hc; simp at hc)).1
+  rw [List.append_nil] at this
+  simp [jsonSetLeaf, this, skipWs, PathIter.byteLen]
+
+/-- **postcard round trip**: every unsigned/signed integer width (LEB128 + zig-zag, one raw byte
+for 8-bit), bool, unit, `Option`, arrays, structs, unit enums -/
+theorem postcard_roundtrip (t : Ty) (v : Val) (bs rest : Bytes) (hf : pcFits t v = true) (he : pcEnc t v = some bs) :
+    pcDec t (bs ++ rest) = some (v, rest) :=
+  pc_rt v t bs rest hf he
+
+/-- LEB128 itself, for every width and value below `2^bits`, within the byte limit postcard enforces -/
+theorem varint_roundtrip (bits n : Nat) (hb : 1 ≤ bits) (hn : n < 2 ^ bits) (rest : Bytes) :
+    unvarint bits (maxVarBytes bits) (maxVarBytes bits + 1) (varint n ++ rest) 0 0 = some (n, rest) :=
+  unvarint_roundtrip bits n hb hn rest
+
+/-- **Serialize-then-write-back is the identity on the tree**: if reading by a key yielded the
+value `v` of a plain leaf, writing a payload that decodes to `v` by the same key leaves the whole
+tree unchanged (whatever the write reports) -/
+theorem write_back_identity (io io' : Io) (t : Tree) (ks : KeySrc) (v : Val) (ty : Ty)
+    (hdec : io'.dec (.leaf ty) = some v) (hv : (t.walk io .ser ks).val = some v)
+    (hk : (t.walk io .ser ks).leaf = some (.leaf ty)) : (t.walk io' .de ks).tree = t :=
+  walk_writeback io io' v ty hdec t ks hv hk
+
+/-- **Write-then-read returns the written value** (through the same key) -/
+theorem read_back (io io2 : Io) (t : Tree) (ks : KeySrc) (v' : Val) (hw : (t.walk io .de ks).val = some v')
+    (hok : ((t.walk io .de ks).tree.walk io2 .ser ks).res.isOk = true) :
+    ((t.walk io .de ks).tree.walk io2 .ser ks).val = some v' :=
+  walk_readback io io2 .ser rfl t ks v' hw hok
+
+/-- a too-small output buffer (the serializer fails) is an error without partial success: no
+value is reported and the tree is unchanged -/
+theorem small_buffer_no_partial (io : Io) (ty : Ty) (v : Val) (h : io.enc (.leaf ty) v = false) :
+    (leafOp io .ser (.leaf ty) v).res = .inner 0 ∧ (leafOp io .ser (.leaf ty) v).val = none ∧
+      (leafOp io .ser (.leaf ty) v).tree = .leaf (.leaf ty) v := by
+  simp [leafOp, h]
+
+/-! ## non-vacuity / documented examples -/
+example : fits (.arr 3 (.int true 16)) (.arr [.int 1, .int (-2), .int 32767]) = true := by decide +kernel
 example : jsonEnc (.arr 3 (.int true 16)) (.arr [.int 1, .int (-2), .int 3]) = some ['[', '1', ',', '-', '2', ',', '3', ']'] := by
   decide +kernel
 example : pcEnc (.int false 64) (.int (2^64 - 1)) = some [255,255,255,255,255,255,255,255,255,1] := by decide +kernel
+example : pcFits (.int true 64) (.int (-(2^63))) = true := by decide +kernel
+example : fits (.opt (.struct [("a", .bool), ("s", .string (some 4))])) (.some (.struct [.bool true, .str "hé".toList])) = true := by
+  decide +kernel
 
 end MiniconfVerif.C05
